@@ -33,6 +33,12 @@ SPEC DECISION D19c: TLS over TCP (`Proto.tls`) is modelled for ONE CoAP message 
    the reliable branches of coap_session_connected / coap_session_disconnected_lkd / coap_send_lkd (type forced to CON,
    coap_client_delay_first) / coap_send_internal, coap_tls_close.  The differential run (harness/tls.c) uses real
    loopback TCP sockets.
+BLOCK MODE (COAP_BLOCK_USE_LIBCOAP on the client context, `Sess.blockMode`): the session's lg_crcv list (`Sess.lgCrcv`, head =
+   most recent) — made by coap_send_lkd for a request that coap_check_send_need_lg_crcv wants tracked (Non-confirmable, any
+   request on a reliable transport, Observe option: `sendLkdTail`), expired by the response (coap_handle_response_get_block,
+   `lgResponse`) or by coap_block_check_lg_crcv_timeouts (`lgExpire`, observed), reported by coap_session_disconnected_lkd
+   ONLY IF nothing else was (`discLg`: `if (!sent_nack && session->lg_crcv)`), deleted there and in coap_session_mfree.
+   SPEC DECISION D19g: such a NACK for a queued Non-confirmable is allowed (the property bounds Confirmables).
 -/
 namespace Coap.TlsGate
 
@@ -149,6 +155,8 @@ structure Sess where
   next : Nat := 0                     -- ghost: next serial number
   doingFirst : Bool := false          -- session->doing_first (reliable client sessions)
   sockOpen : Bool := true             -- coap_netif_available(session) (looked at on reliable sessions only)
+  blockMode : Bool := false           -- session->block_mode & COAP_BLOCK_USE_LIBCOAP (copied from the context at creation)
+  lgCrcv : List QMsg := []            -- session->lg_crcv: the request each entry was made for (head = most recent: LL_PREPEND)
   deriving DecidableEq, Repr
 
 /-- the running context of one event: session, remaining oracle answers, outputs so far, last return value -/
@@ -243,13 +251,24 @@ def sessionClose (c : Ctx) : Ctx :=
 
 def nackOf (r : Nack) (m : QMsg) : Out := .nack r (some m.tok) (some m.sn)
 
-/-- the NACKs coap_session_disconnected_lkd raises before it touches the session: the first node of the send queue,
-every Confirmable in the delay queue (not for an ICMP error), or one NACK without a PDU if there was nothing -/
+/-- coap_session_disconnected_lkd, first loop: the first node of the send queue that belongs to the session -/
+def discFirst (reason : Nack) (c : Ctx) : List Out :=
+  match c.s.inflight with | q :: _ => [nackOf reason q] | [] => []
+
+/-- second loop (not for an ICMP error): every Confirmable in the delay queue -/
+def discDq (reason : Nack) (c : Ctx) : List Out :=
+  if reason = .icmp then [] else (c.s.delayq.filter fun q : QMsg => q.con).map (nackOf reason)
+
+/-- `if (!sent_nack && session->lg_crcv)`: ONLY IF NOTHING WAS REPORTED SO FAR the request of the first lg_crcv entry
+(block mode: large-receive / observe tracking) -/
+def discLg (reason : Nack) (c : Ctx) : List Out :=
+  if (c.discFirst reason ++ c.discDq reason).isEmpty then (match c.s.lgCrcv with | g :: _ => [nackOf reason g] | [] => []) else []
+
+/-- the NACKs coap_session_disconnected_lkd raises before it touches the session: `discFirst`, `discDq`, `discLg`, or one
+NACK without a PDU if there was nothing at all (`if (!sent_nack)`) -/
 def discOuts (reason : Nack) (c : Ctx) : List Out :=
-  let first : List Out := match c.s.inflight with | q :: _ => [nackOf reason q] | [] => []
-  let dq : List Out := if reason = .icmp then [] else (c.s.delayq.filter fun q : QMsg => q.con).map (nackOf reason)
-  let nothing : List Out := if first.isEmpty && dq.isEmpty then [.nack reason none none] else []
-  first ++ dq ++ nothing
+  let named := c.discFirst reason ++ c.discDq reason ++ c.discLg reason
+  named ++ (if named.isEmpty then [.nack reason none none] else [])
 
 /-- coap_session_disconnected_lkd, `#if !COAP_DISABLE_TCP if (COAP_PROTO_RELIABLE(session->proto))`: the TCP / session
 events (`st0` = the session state on entry) and doing_first -/
@@ -268,7 +287,8 @@ def disconnected (reason : Nack) (c : Ctx) : Ctx :=
   let c := c.upd fun s => { s with delayq := [], state := if s.proto = .udp then .established else .none, conActive := 0 }
   -- coap_cancel_session_messages
   let c := { c with out := c.out ++ (c.s.inflight.filter fun q : QMsg => q.con).map (nackOf reason) }
-  let c := c.upd fun s => { s with inflight := [] }
+  -- (the lg_crcv entries are deleted before the close: LL_FOREACH_SAFE … coap_block_delete_lg_crcv)
+  let c := c.upd fun s => { s with inflight := [], lgCrcv := [] }
   (c.relTail st0).sessionClose
 
 /-! ## coap_net.c: the gate -/
@@ -410,8 +430,10 @@ def sessionConnected (c : Ctx) : Ctx :=
   let c := c.upd fun s => { s with state := .established }
   flushLoop (c.s.delayq.length + 1) c
 
-/-- coap_session_free -> coap_session_mfree (close first, then the delay queue is NACKed) -/
+/-- coap_session_free -> coap_session_mfree (the lg_crcv entries are deleted silently — none has `observe_set`: the
+harness' resource is not observable —, close, then the delay queue is NACKed) -/
 def sessionFree (c : Ctx) : Ctx :=
+  let c := c.upd fun s => { s with lgCrcv := [] }
   let c := c.sessionClose
   let r : Nack := if c.s.proto = .dtls then .tls else .undeliv
   let c := { c with out := c.out ++ (c.s.delayq.filter fun q : QMsg => q.con).map (nackOf r) }
@@ -429,10 +451,51 @@ def sendInternal (m : QMsg) (ack : Bool) (c : Ctx) : Ctx :=
   else if !m.con || ack || c.s.proto = .tls then c
   else c.upd fun s => { s with inflight := s.inflight ++ [m] }
 
-/-- the application (or the library, for a response) submits a message: coap_send -/
+/-- the application (or the library, for a response) submits a message: coap_send on a session WITHOUT block mode
+(`if (!(session->block_mode & COAP_BLOCK_USE_LIBCOAP)) return coap_send_internal(session, pdu)`) -/
 def appSend (con : Bool) (code mid : Nat) (tok : String) (c : Ctx) : Ctx :=
   let m : QMsg := { sn := c.s.next, con := con, code := code, mid := mid, tok := tok }
   (c.upd fun s => { s with next := s.next + 1 }).sendInternal m false
+
+/-! ### block mode (COAP_BLOCK_USE_LIBCOAP): the lg_crcv list -/
+
+/-- LL_FOREACH … first entry whose application token is `tok` … LL_DELETE -/
+def eraseTok (tok : String) : List QMsg → List QMsg
+  | [] => []
+  | g :: t => if g.tok = tok then t else g :: eraseTok tok t
+
+/-- coap_check_send_need_lg_crcv for the requests the harness makes (GET; no OSCORE, no (Q-)Block1): a Non-confirmable
+or any request on a reliable transport, or one with an Observe option -/
+def needLgCrcv (con obs : Bool) (c : Ctx) : Bool := !con || c.s.proto = .tls || obs
+
+/-- coap_send_lkd from `if (!(session->block_mode & COAP_BLOCK_USE_LIBCOAP)) return coap_send_internal(…)` on, for a request:
+an lg_crcv entry is made when needed (an older one for the same token is dropped first), the PDU goes to
+coap_send_internal, the entry is LL_PREPENDed unless that returned COAP_INVALID_MID (delayed counts as sent) -/
+def sendLkdTail (m : QMsg) (obs : Bool) (c : Ctx) : Ctx :=
+  if !c.s.blockMode then c.sendInternal m false else
+  if needLgCrcv m.con obs c then
+    let c := c.upd fun s => { s with lgCrcv := eraseTok m.tok s.lgCrcv }
+    let c := c.sendInternal m false
+    if c.ret = DELAYED || c.ret ≥ 0 then c.upd fun s => { s with lgCrcv := m :: s.lgCrcv } else c
+  else c.sendInternal m false
+
+/-- coap_send on a DTLS client session, block mode or not; `obs` = the request carries an Observe option -/
+def appSendL (con obs : Bool) (code mid : Nat) (tok : String) (c : Ctx) : Ctx :=
+  let m : QMsg := { sn := c.s.next, con := con, code := code, mid := mid, tok := tok }
+  (c.upd fun s => { s with next := s.next + 1 }).sendLkdTail m obs
+
+/-- handle_response in block mode -> coap_handle_response_get_block for a response without Block2 / Observe option (what
+the harness' resource answers): the lg_crcv entry of that token is expired (`goto expire_lg_crcv`); 4.01 (Echo) is
+outside the modelled subset -/
+def lgResponse (v : View) (c : Ctx) : Ctx :=
+  if !c.s.blockMode then c
+  else if v.code = 129 then c.emit (.unmodelled "4.01-in-block-mode")
+  else c.upd fun s => { s with lgCrcv := eraseTok v.tok s.lgCrcv }
+
+/-- coap_block_check_lg_crcv_timeouts (run by the I/O loop): entries not used for MAX_TRANSMIT_WAIT are deleted silently;
+`keep` = the tokens of the entries that survived (observed) -/
+def lgExpire (keep : List String) (c : Ctx) : Ctx :=
+  c.upd fun s => { s with lgCrcv := s.lgCrcv.filter fun g => keep.contains g.tok }
 
 /-! ## receiving -/
 
@@ -455,7 +518,7 @@ def handleResponse (v : View) (c : Ctx) : Ctx :=
     else s
   if v.kind = 0 then c.emit (.unmodelled "con-response")
   else if v.kind = 2 && c.s.lastAckMid = some v.mid then c
-  else (c.upd fun s => if v.kind = 2 then { s with lastAckMid := some v.mid } else s).emit (.rsp v.tok v.code)
+  else ((c.upd fun s => if v.kind = 2 then { s with lastAckMid := some v.mid } else s).lgResponse v).emit (.rsp v.tok v.code)
 
 /-- handle_request for the harness' resource: the handler answers 2.05, piggy-backed for CON -/
 def handleRequest (v : View) (c : Ctx) : Ctx :=
@@ -560,7 +623,7 @@ def dispatchStrm (v : View) (c : Ctx) : Ctx :=
     -- coap_send_internal on a reliable session = coap_send_pdu (nothing is kept for retransmission); handle_request
     -- ignores its result (`sendfail` is what the APPLICATION's coap_send returns)
     (c.upd fun s => { s with next := s.next + 1 }).sendPdu m false false
-  else if v.code ≥ 64 then c.emit (.rsp v.tok v.code)
+  else if v.code ≥ 64 then (c.lgResponse v).emit (.rsp v.tok v.code)
   else c.emit (.unmodelled "code")
 
 /-- first half of coap_tls_read: the handshake step while GnuTLS is not established -/
@@ -615,7 +678,7 @@ def appSendStrm (waited : Bool) (code mid : Nat) (tok : String) (c : Ctx) : Ctx 
       if c.s.state = .csm then c.emit (.unmodelled "csm-timeout") else c
     else c
   let m : QMsg := { sn := c.s.next, con := true, code := code, mid := mid, tok := tok }
-  (c.upd fun s => { s with next := s.next + 1 }).sendInternal m false
+  (c.upd fun s => { s with next := s.next + 1 }).sendLkdTail m false
 
 /-- coap_dtls_handle_timeout (called by the I/O loop for a DTLS session in HANDSHAKE state that has a TLS object) -/
 def tlsTimeout (c : Ctx) : Ctx :=
@@ -704,6 +767,8 @@ inductive Ev where
   | strmRead                               -- TLS: the socket is readable
   | strmWrite                              -- TLS: the socket is writable again
   | appSendStrm (waited : Bool) (code mid : Nat) (tok : String)   -- TLS: coap_send
+  | appSendL (con obs : Bool) (code mid : Nat) (tok : String)     -- coap_send, block mode or not; obs = Observe option
+  | lgExpire (keep : List String)          -- block mode: lg_crcv entries timed out, these tokens are left
   deriving DecidableEq, Repr
 
 open Ctx in
@@ -723,6 +788,8 @@ def Sess.stepCtx (s : Sess) (e : Ev) (orc : List Orc) : Ctx :=
   | .strmRead => c.strmRead.maybeFree
   | .strmWrite => c.strmWrite.maybeFree
   | .appSendStrm w code mid tok => c.appSendStrm w code mid tok
+  | .appSendL con obs code mid tok => c.appSendL con obs code mid tok
+  | .lgExpire keep => c.lgExpire keep
 
 /-- … returns the session and the outputs -/
 def Sess.step (s : Sess) (e : Ev) (orc : List Orc) : Sess × List Out :=
@@ -738,18 +805,18 @@ def Sess.run (s : Sess) : List (Ev × List Orc) → Sess × List Out
     (s2, o1 ++ o2)
 
 /-- coap_new_client_session_psk2 for DTLS: session created in HANDSHAKE state, ClientHello sent by the oracle -/
-def newClientCtx (orc : List Orc) : Ctx :=
-  let c : Ctx := { s := { proto := .dtls, typ := .client }, orc := orc }
+def newClientCtx (orc : List Orc) (bm : Bool := false) : Ctx :=
+  let c : Ctx := { s := { proto := .dtls, typ := .client, blockMode := bm }, orc := orc }
   c.dtlsEstablishClient
 
-def newClient (orc : List Orc) : Sess × List Out :=
-  let c := newClientCtx orc
+def newClient (orc : List Orc) (bm : Bool := false) : Sess × List Out :=
+  let c := newClientCtx orc bm
   (c.s, c.out)
 
 /-- coap_new_client_session_psk2 for TLS (coap_session_check_connect): `now` = connect() completed at once, the session
 goes straight to coap_tls_establish; else CONNECTING with doing_first set -/
-def newClientTlsCtx (now : Bool) (orc : List Orc) : Ctx :=
-  let c : Ctx := { s := { proto := .tls, typ := .client }, orc := orc }
+def newClientTlsCtx (now : Bool) (orc : List Orc) (bm : Bool := false) : Ctx :=
+  let c : Ctx := { s := { proto := .tls, typ := .client, blockMode := bm }, orc := orc }
   if now then c.tlsEstablish else c.upd fun s => { s with state := .connecting, doingFirst := true }
 
 /-- coap_new_server_session for an accepted TCP connection at a TLS endpoint -/
